@@ -714,15 +714,65 @@ static void pL_run(uint64_t idx, vh_rng_t * rng) {
     vh_ctx_free(v);
 }
 
+/* ---- phase "uptime": ONE queue that is never cleared or re-initialised serves far more errors than any index type of its bookkeeping counts
+ * (an instrument that has been up for weeks): a few entries stay pending all the time, every entry must come back in order with its own text.
+ * quick: 70000 errors (past 2^16); thorough, default flavour: 2^32 + 2^17 errors (past 2^32), capacity not a power of two. ------------------ */
+static uint64_t pU_count(int thorough) { (void) thorough; return 4; }
+static void pU_run(uint64_t idx, vh_rng_t * rng) {
+    static const int caps[4] = { 3, 5, 17, 6 };
+    int N = caps[idx & 3], pending = 0, keep = 2 + (int) (idx & 1); uint64_t total, i, next_pop = 0; vh_ctx_t * v; char t[24]; int bad = 0;
+    (void) rng;
+    total = 70000;
+    if (vh_args.thorough && VH_FLAVOUR_DEFAULT && !VH_ASAN && idx == 2) total = (1ull << 32) + (1ull << 17);
+    vh_case_desc("uptime: %llu errors through one queue of capacity %d, %d pending", (unsigned long long) total, N, keep);
+    vh_watchdog(3600);
+    v = vh_ctx_new(cmds, 64, N, 0); v->log_enabled = 0;
+    for (i = 0; i < total + (uint64_t) keep && !bad; i++) {
+        if (i < total) {
+            int16_t code = (int16_t) (-100 - (int) (i % 300));
+#if CFG_TEXT
+            int n = snprintf(t, sizeof t, "e%llu", (unsigned long long) i);
+            SCPI_ErrorPushEx(v->ctx, code, t, (size_t) n);
+#else
+            (void) t; SCPI_ErrorPush(v->ctx, code);
+#endif
+            pending++;
+        }
+        while (pending > (i < total ? keep : 0)) {
+            scpi_error_t e; int16_t want = (int16_t) (-100 - (int) (next_pop % 300));
+            memset(&e, 0xA5, sizeof e);
+            SCPI_ErrorPop(v->ctx, &e);
+            if (e.error_code != want) { vh_violation("C10:order-lost-after-many-errors", "capacity %d, never cleared: entry number %llu came back with code %d, pushed was %d", N, (unsigned long long) next_pop, (int) e.error_code, (int) want); bad = 1; }
+#if CFG_TEXT
+            else {
+                char w[24]; snprintf(w, sizeof w, "e%llu", (unsigned long long) next_pop);
+                if (!e.device_dependent_info || strcmp(e.device_dependent_info, w) != 0) { vh_violation("C10:text-of-another-error-after-many-errors", "capacity %d, never cleared: entry number %llu (code %d) came back with text \"%s\", pushed was \"%s\"", N, (unsigned long long) next_pop, (int) want, e.device_dependent_info ? e.device_dependent_info : "(none)", w); bad = 1; }
+            }
+#if CFG_MALLOC
+            if (!bad) free(e.device_dependent_info);
+#endif
+#endif
+            next_pop++; pending--;
+            if (bad) break;
+        }
+        if ((i & 0xffffff) == 0) vh_watchdog(3600);
+    }
+    vh_eval(total);
+    vh_count(total > 100000 ? "uptime.queue_served_more_than_2^32_errors" : "uptime.queue_served_70000_errors", 1);
+    if (bad) SCPI_ErrorInit(v->ctx, v->queue, (int16_t) N); /* do not walk a queue that is known to be inconsistent */
+    vh_ctx_free(v);
+}
+
 int main(int argc, char ** argv) {
     static const vh_phase_t phases[] = {
         { "enumerated", p0_count, p0_run },
         { "random", p1_count, p1_run },
         { "large", pL_count, pL_run },
+        { "uptime", pU_count, pU_run },
     };
     vh_require("overflow.events");
     vh_require("overflow.marker_popped");
-    vh_require("history.ring_wraparound"); vh_require("op.queue_storage_replaced_on_live_context");
+    vh_require("history.ring_wraparound"); vh_require("uptime.queue_served_70000_errors"); vh_require("op.queue_storage_replaced_on_live_context");
     vh_require("op.errorpop_on_empty");
     vh_require("op.syst_err_on_empty");
 #if CFG_TEXT
@@ -742,5 +792,5 @@ int main(int argc, char ** argv) {
     vh_require("push.automatic_len");
 #endif
     vh_require("large.cases"); vh_require("large.capacity_gt_16384");
-    return vh_main(argc, argv, "C10", phases, 3);
+    return vh_main(argc, argv, "C10", phases, 4);
 }
